@@ -364,3 +364,49 @@ def rule_falsy_zero(ctx: Ctx, rels: List[str]) -> None:
         raise AnalysisError("falsy.zero: nothing scanned")
     if hits == 0:
         ctx.ok_abstract("falsy.zero", f"no truthiness test of a numeric parameter in {scanned} functions of {len(rels)} module(s)")
+
+
+# --------------------------------------------------------------------------- arg.names-swapped
+
+
+def rule_arg_names(ctx: Ctx, rels: List[str]) -> None:
+    """arg.names-swapped: at a call of one of graphiq's own functions, two positional arguments that are plain names, each spelled
+    exactly like one of the callee's parameters, are passed in each other's position (f(target, control) for def f(control, target)).
+    Resolved by unique function name across the package; zero instances on today's tree."""
+    repo = ctx.repo
+    defs: Dict[str, List[Tuple[Module, ast.FunctionDef]]] = {}
+    for m in repo.modules.values():
+        for f in ast.walk(m.tree):
+            if isinstance(f, ast.FunctionDef):
+                defs.setdefault(f.name, []).append((m, f))
+    sites = 0
+    hits = 0
+    for rel in rels:
+        m = repo.module(rel)
+        for fn in [f for f in ast.walk(m.tree) if isinstance(f, ast.FunctionDef)]:
+            for c in [x for x in ast.walk(fn) if isinstance(x, ast.Call)]:
+                name = call_attr(c) or (c.func.id if isinstance(c.func, ast.Name) else None)
+                cands = defs.get(name, []) if name else []
+                if not cands:
+                    continue
+                sigs = {tuple(a.arg for a in f_.args.posonlyargs + f_.args.args) for _, f_ in cands}
+                if len(sigs) != 1:
+                    continue  # same name, different signatures: the callee is not determined without types
+                cm, cf = cands[0]
+                ps = [a.arg for a in cf.args.posonlyargs + cf.args.args]
+                if ps and ps[0] in ("self", "cls") and isinstance(c.func, ast.Attribute):
+                    ps = ps[1:]
+                args = [a.id if isinstance(a, ast.Name) else None for a in c.args]
+                sites += 1
+                bad = [(i, a) for i, a in enumerate(args) if a is not None and a in ps and i < len(ps) and ps[i] != a
+                       and ps.index(a) < len(args) and args[ps.index(a)] in ps and args[ps.index(a)] != a]
+                if len(bad) >= 2:
+                    hits += 1
+                    ctx.touch(m, fn)
+                    ctx.fail("arg.names-swapped", m, c,
+                             f"{qualname(fn)} calls `{short(c, 70)}`, but {name} is declared as ({', '.join(ps[:6])}): the arguments {[a for _, a in bad]} "
+                             f"are passed in each other's position", func=qualname(fn), construct=f"{qualname(fn)}: {name}() arguments {[a for _, a in bad]} swapped")
+    if sites == 0:
+        raise AnalysisError("arg.names-swapped: no resolvable call site")
+    if hits == 0:
+        ctx.ok_abstract("arg.names-swapped", f"{sites} resolved call sites, no pair of same-named arguments in each other's position")
